@@ -331,6 +331,7 @@ static void shift_case(vf::Draw& d, vf::Case& c, const SolveTraits& t, RunFn fn,
     }
     c.nontrivial = n >= 2;
     c.feat["cond"] = (double) cond;
+    bool kf3_domain = false;
     // structure of the matrix that is factorized (stored entries of A plus the diagonal): do its row counts and its column
     // counts give the same outer-index array? (feature of the known finding about row-major input to Eigen::SparseLU)
     {
@@ -347,7 +348,10 @@ static void shift_case(vf::Draw& d, vf::Case& c, const SolveTraits& t, RunFn fn,
         }
         c.feat["row_col_profile_differs"] = differs ? 1 : 0;
         if (t.sparse && t.rowmajor && differs && !symm)
+        {
             c.cls("rowmajor_sparse_lu_with_unsymmetric_profile");
+            kf3_domain = true;
+        }
     }
 
     Eff clean;
@@ -356,7 +360,9 @@ static void shift_case(vf::Draw& d, vf::Case& c, const SolveTraits& t, RunFn fn,
     Out o = safe_run(fn, in, clean);
     VF_CHECK(o.threw == 0, "false_singular", name << ": exception '" << o.what << "' for a system with condition number " << vf::num(cond));
     VF_CHECK(o.ints[0] == n && o.ints[1] == n, "dimensions", name << ": rows()/cols() = " << o.ints[0] << "x" << o.ints[1]);
-    const char* stat = cshift ? "complex shift solve: err/(n eps cond ||x||)" : (symm ? "sym shift solve: err/(n eps cond ||x||)" : "real shift solve: err/(n eps cond ||x||)");
+    std::string stat = cshift ? "complex shift solve: err/(n eps cond ||x||)" : (symm ? "sym shift solve: err/(n eps cond ||x||)" : "real shift solve: err/(n eps cond ||x||)");
+    if (kf3_domain)  // cases in the input class of KF-C11-3 that happen to stay below the bound are kept out of the calibration record
+        stat += " [row-major SparseLU on an unsymmetric profile, input class of KF-C11-3]";
     for (int k = 0; k < 2; k++)
     {
         const CVecL& b = k ? in.x2 : in.x;
